@@ -1,4 +1,5 @@
 import Glom.Lemmas.C02
+import Glom.Lemmas.C02Heap
 import Glom.Model.C02Env
 import Glom.Model.C02Heap
 /-
@@ -20,12 +21,16 @@ import Glom.Model.C02Heap
     * `WF F`             the extracted tables are well formed (facts obligation)
     * `record … = some o` the expression can be written: every operation used has
                           an overload on TType
-    * `PlainCallee prim` the `arg_val` pass of `Call.glomit` over the already evaluated
+    * `PlainCallee prim` (only `c02_replay`, the statement against PLAIN Python) the
+                          `arg_val` pass of `Call.glomit` over the already evaluated
                           callee returns it, i.e. the callee is not a glom spec object
                           stored in the target's data (a callable is a literal in
-                          argument mode).  Forced by the proof;
-                          `c02_callee_eval_counterexample` is the concrete input
-                          without it.  The ARGUMENTS of a call need no hypothesis:
+                          argument mode).  Forced: `c02_callee_eval_counterexample` is
+                          the concrete input without it.  `c02_replay_reval` needs no such
+                          hypothesis: it states what glom does for EVERY callee — the
+                          callee is passed through `arg_val` first (a stored `T` / `Spec`
+                          object is evaluated against the target), then the arguments,
+                          then the call.  The ARGUMENTS of a call need no hypothesis:
                           since /repo commit db9b8f7 they are evaluated exactly once
                           and reach the callee as they are
                           (`c02_call_by_reference`, `c02_args_evaluated_once`;
@@ -55,32 +60,78 @@ theorem c02_no_dropped_op (d c : String) (h : charOf genFacts d = some c) :
       Kind.ofString ks = kind ∧ caughtOfKind genFacts kind = caught :=
   recorded_wf c02_facts_wf h
 
-/-- **Replay.**  Evaluating the recorded object with `_t_eval` (flat tuple, index
-    stepping by 2, branch table, `arg_val` on every argument inside the loop,
-    the recorded `(args, kwargs)` of a call handed unevaluated to `Call`, which
-    evaluates them once) started in any state `s` yields exactly what
-    applying the chain of operations directly to the target object in state `s`
-    yields — the same value *and the same state afterwards*; or the first failing
-    operation, as PathAccessError(position) when the branch's `except` clause
-    names its class and unchanged otherwise; or the failure of the first failing
-    argument — again with the same state left behind. -/
-theorem c02_replay {V S : Type} (F : Facts) (hwf : WF F = true) (prim : Prim V S)
-    (hcallee : PlainCallee prim) (e : E V) (o : C02.Obj V)
+/-- **Replay, for every callee.**  Evaluating the recorded object with `_t_eval` (flat tuple,
+    index stepping by 2, branch table, `arg_val` on every argument inside the loop, the
+    recorded `(args, kwargs)` of a call handed unevaluated to `Call`, which passes the callee
+    through `arg_val`, evaluates the arguments once and calls) started in any state `s` yields
+    exactly what applying the chain of operations to the target object in state `s` yields,
+    where the callee of a call is first passed through `arg_val` (`prim.revalFunc`: a
+    callable / any plain object is returned as it is, a glom spec object found in the target's
+    data is evaluated against the target) — the same value *and the same state afterwards*;
+    or the first failing operation, as PathAccessError(position) when the branch's `except`
+    clause names its class and unchanged otherwise; or the failure of the first failing
+    argument / callee evaluation — again with the same state left behind.  No hypothesis on
+    the primitives at all. -/
+theorem c02_replay_reval {V S : Type} (F : Facts) (hwf : WF F = true) (prim : Prim V S)
+    (e : E V) (o : C02.Obj V)
     (hrec : record F prim.none e = some o) (target : V) (s : S) :
-    tEval F prim o target s = outS F (refEval prim e target s) := by
+    tEval F prim o target s = outS F (refEval prim prim.revalFunc e target s) := by
   unfold tEval refEval
-  rw [argVal_record F hwf prim hcallee target e o hrec]
+  rw [argVal_record F hwf prim target e o hrec]
   simp only [outRun, outS]
-  cases h : refArg prim target e s with
+  cases h : refArg prim prim.revalFunc target e s with
   | mk x s1 =>
     cases x with
     | error e => rfl
     | ok av => cases av <;> rfl
 
-/-- The executable instance the correspondence driver runs (values with object
-    identity in a heap, `Glom/Model/C02Heap.lean`) meets the hypothesis `PlainCallee`
-    (the harness never uses a stored glom spec object as callee). -/
-theorem c02_driver_instance_plain : PlainCallee hPrim := fun _ _ _ => rfl
+/-- **Replay** against plain Python (`plainRV`: a call calls the object the chain reached):
+    when the callee of a recorded call is not a glom spec object stored in the target
+    (`PlainCallee`), `_t_eval` on the recorded object yields exactly what the same chain of
+    attribute, item, call and arithmetic operations yields when applied directly to the
+    target — value / first failure and state left. -/
+theorem c02_replay {V S : Type} (F : Facts) (hwf : WF F = true) (prim : Prim V S)
+    (hcallee : PlainCallee prim) (e : E V) (o : C02.Obj V)
+    (hrec : record F prim.none e = some o) (target : V) (s : S) :
+    tEval F prim o target s = outS F (refEval prim plainRV e target s) := by
+  rw [c02_replay_reval F hwf prim e o hrec target s, plainCallee_eq hcallee]
+
+/-- **Every other argument is passed through literally.**  A literal argument that is an
+    instance `v` of a SUBCLASS of a builtin container (namedtuple, defaultdict, OrderedDict,
+    Counter, a user's list type — whatever it contains, `T` objects included) reaches the
+    operation as the very object `v`: `arg_val` returns `v` itself, evaluates none of its
+    members, builds nothing (`prim.rebuild` / `mkList` … are not consulted) and leaves the
+    state as it is — because the type tests of `_ArgValuator.mode` are exact
+    (`argModeOk`, part of the facts obligation). -/
+theorem c02_literal_by_reference {V S : Type} (F : Facts) (hwf : WF F = true) (prim : Prim V S)
+    (target : V) (base : String) (v : V) (items : List (E V)) (o : C02.Obj V)
+    (hrec : record F prim.none (.sub base v items) = some o) (s : S) :
+    argVal F prim target o s = (.ok (.val v), s) ∧
+    refArg prim plainRV target (.sub base v items) s = (.ok (.val v), s) := by
+  constructor
+  · rw [argVal_record F hwf prim target _ o hrec]
+    simp only [outRun, outS, refArg, outOf]
+  · simp only [refArg]
+
+/-- The executable instance the correspondence driver runs (values with object identity in a
+    heap, `Glom/Model/C02Heap.lean`): `arg_val` over a callee that is neither a glom spec
+    object nor an exact builtin container — a function, a bound method, an attribute object,
+    an instance of a container subclass — returns it and leaves the heap as it is, at every
+    nesting depth.  (For the other callees `c02_replay_reval` says what happens.) -/
+theorem c02_heap_callee_plain (F : Facts) (hwf : WF F = true) (n : Nat) (s : HS) (target f : Val)
+    (hplain : isSpecLike s f = false) :
+    (hPrim F n).revalFunc s target f = (.ok f, s) :=
+  hReval_plain F (argMode_wf hwf).1 n s target f hplain
+
+/-- `c02_replay_reval` for the executable kernel the driver runs on the tables of this run: heap
+    values with identity (any object graph at the start: sharing, cycles), subscription with
+    slices, properties / `__getattr__` / descriptors of the probe classes, dict views, str
+    methods, sets, every operator — and spec objects as callees, at every nesting depth `n`. -/
+theorem c02_replay_heap (n : Nat) (e : E Val) (o : C02.Obj Val)
+    (hrec : record genFacts (hPrim genFacts n).none e = some o) (target : Val) (s : HS) :
+    tEval genFacts (hPrim genFacts n) o target s =
+      outS genFacts (refEval (hPrim genFacts n) (hPrim genFacts n).revalFunc e target s) :=
+  c02_replay_reval genFacts c02_facts_wf (hPrim genFacts n) e o hrec target s
 
 /-- **Which failures are PathAccessErrors.**  A failing attribute / item /
     arithmetic operation number `k` raising a documented class surfaces as
@@ -92,84 +143,198 @@ theorem c02_error_classes (F : Facts) (hwf : WF F = true) (k : Nat) (kind : Kind
   errOf_opFail hwf k kind e
 
 /-- **Arguments are evaluated against the original target object in its current
-    state.**  For a chain `pre` followed by one operation `d` whose argument is
-    itself a T expression `inner`: first `pre` is applied to the target in state
-    `s`, giving `cur` and leaving state `s1`; then `inner` is evaluated on the
+    state.**  For a chain `pre` followed by one operation `d` (not a call) with ANY argument
+    expression `a` — a nested T expression, a literal, a list / dict holding T expressions, an
+    instance of a container subclass —: first `pre` is applied to the target in state
+    `s`, giving `cur` and leaving state `s1`; then `a` is evaluated on the
     TARGET (not on `cur`) *in state `s1`* (not in `s`: it sees what `pre` did to
     the target), leaving `s2`; then `d` is applied to `cur` with that value in
     state `s2`, as operation number `pre.length`. -/
 theorem c02_args_from_root {V S : Type} (F : Facts) (hwf : WF F = true) (prim : Prim V S)
-    (hcallee : PlainCallee prim) (pre inner : List (String × E V)) (d : String)
-    (hd : arglessDunders.contains d = false) (o : C02.Obj V)
-    (hrec : record F prim.none (.texpr (pre ++ [(d, .texpr inner)])) = some o) (target : V)
+    (pre : List (String × E V)) (a : E V) (d : String)
+    (hd : arglessDunders.contains d = false) (hnc : meaning d ≠ some .call) (o : C02.Obj V)
+    (hrec : record F prim.none (.texpr (pre ++ [(d, a)])) = some o) (target : V)
     (s : S) :
     tEval F prim o target s = outS F
-      (match refEval prim (.texpr pre) target s with
+      (match refEval prim prim.revalFunc (.texpr pre) target s with
        | (.error e, s1) => (.error e, s1)
        | (.ok cur, s1) =>
-         match refEval prim (.texpr inner) target s1 with
+         match refEval prim prim.revalFunc a target s1 with
          | (.error e, s2) => (.error e, s2)
-         | (.ok a, s2) =>
+         | (.ok av, s2) =>
            match meaning d with
            | none => (.error .unsupported, s2)
            | some kind =>
-             match pyApply prim kind s2 cur (.val a) with
+             match pyApply prim kind s2 cur (.val av) with
              | none => (.error .unsupported, s2)
              | some (.ok v, s3) => (.ok v, s3)
              | some (.error e, s3) => (.error (.opFail pre.length kind e), s3)) := by
-  rw [c02_replay F hwf prim hcallee _ o hrec target s]
+  rw [c02_replay_reval F hwf prim _ o hrec target s]
   congr 1
   simp only [refEval_texpr, List.map_append, List.map_cons, List.map_nil, foldSteps_append]
-  cases h1 : foldSteps prim (pre.map (refStep prim target)) 0 s target with
+  cases h1 : foldSteps prim (fun s f => prim.revalFunc s target f)
+      (pre.map (refStep prim prim.revalFunc target)) 0 s target with
   | mk x s1 =>
     cases x with
     | error e => rfl
     | ok cur =>
+      have hcal : calleeOf (meaning d) (fun s f => prim.revalFunc s target f) s1 cur = (.ok cur, s1) := by
+        simp only [calleeOf]
+        have : (meaning d == some Kind.call) = false := by
+          cases hm : meaning d with
+          | none => rfl
+          | some k =>
+            rw [hm] at hnc
+            cases k <;> first | (exact absurd rfl hnc) | rfl
+        simp [this]
       simp only [refStep, hd, Bool.false_eq_true, if_false, foldSteps, List.length_map,
-        Nat.zero_add]
-      rw [refArg_texpr]
-      cases h2 : foldSteps prim (inner.map (refStep prim target)) 0 s1 target with
+        Nat.zero_add, hcal]
+      unfold refEval
+      cases h2 : refArg prim prim.revalFunc target a s1 with
       | mk y s2 =>
         cases y with
         | error e => rfl
-        | ok a =>
-          simp only
-          cases meaning d with
-          | none => rfl
-          | some kind =>
+        | ok av =>
+          cases av with
+          | val w =>
             simp only
-            cases h3 : pyApply prim kind s2 cur (.val a) with
+            cases meaning d with
             | none => rfl
-            | some r =>
-              obtain ⟨r, s3⟩ := r
-              cases r <;> rfl
+            | some kind =>
+              simp only
+              cases h3 : pyApply prim kind s2 cur (.val w) with
+              | none => rfl
+              | some r =>
+                obtain ⟨r, s3⟩ := r
+                cases r <;> rfl
+          | call as ks =>
+            simp only
+            cases hm : meaning d with
+            | none => rfl
+            | some kind =>
+              have hk : kind ≠ .call := fun h => hnc (by rw [hm, h])
+              cases kind <;> first | (exact absurd rfl hk) | rfl
+
+/-- **… and a literal instance of a container subclass IS the operand.**  `c02_args_from_root`
+    for an argument that is the object `v`, an instance of a subclass of `base`: the operation
+    `d` is applied to `cur` and the very object `v`, in the state `pre` left — nothing is
+    evaluated, built or changed in between. -/
+theorem c02_subclass_literal_operand {V S : Type} (F : Facts) (hwf : WF F = true) (prim : Prim V S)
+    (pre : List (String × E V)) (base : String) (v : V) (items : List (E V)) (d : String)
+    (hd : arglessDunders.contains d = false) (hnc : meaning d ≠ some .call) (o : C02.Obj V)
+    (hrec : record F prim.none (.texpr (pre ++ [(d, .sub base v items)])) = some o) (target : V)
+    (s : S) :
+    tEval F prim o target s = outS F
+      (match refEval prim prim.revalFunc (.texpr pre) target s with
+       | (.error e, s1) => (.error e, s1)
+       | (.ok cur, s1) =>
+         match meaning d with
+         | none => (.error .unsupported, s1)
+         | some kind =>
+           match pyApply prim kind s1 cur (.val v) with
+           | none => (.error .unsupported, s1)
+           | some (.ok w, s2) => (.ok w, s2)
+           | some (.error e, s2) => (.error (.opFail pre.length kind e), s2)) := by
+  rw [c02_args_from_root F hwf prim pre (.sub base v items) d hd hnc o hrec target s]
+  congr 1
+  cases h1 : refEval prim prim.revalFunc (.texpr pre) target s with
+  | mk x s1 =>
+    cases x with
+    | error e => rfl
+    | ok cur => simp only [refEval, refArg]
+
+/-- **A call: the callee first, then the arguments, then the call.**  For a chain `pre`
+    followed by a call with arguments `args`, `kwargs`: `pre` is applied to the target (value
+    `cur`, state `s1`); then the callee is passed through `arg_val` (`prim.revalFunc`, in state
+    `s1`: a spec object found in the target's data is evaluated against the target; a failure
+    there ends the evaluation BEFORE any argument is evaluated, with that failure; state `s2`);
+    then the arguments are evaluated left to right and the keyword arguments after them, each
+    against the target, from state `s2` on; then the resulting callee is called with the very
+    objects they evaluated to, as operation number `pre.length`. -/
+theorem c02_call_order {V S : Type} (F : Facts) (hwf : WF F = true) (prim : Prim V S)
+    (pre : List (String × E V)) (args : List (E V)) (kwargs : List (String × E V)) (o : C02.Obj V)
+    (hrec : record F prim.none (.texpr (pre ++ [("__call__", .cargs args kwargs)])) = some o)
+    (target : V) (s : S) :
+    tEval F prim o target s = outS F
+      (match refEval prim prim.revalFunc (.texpr pre) target s with
+       | (.error e, s1) => (.error e, s1)
+       | (.ok cur, s1) =>
+         match prim.revalFunc s1 target cur with
+         | (.error e, s2) => (.error (.callee e), s2)
+         | (.ok f, s2) =>
+           match refArg prim prim.revalFunc target (.cargs args kwargs) s2 with
+           | (.error e, s3) => (.error e, s3)
+           | (.ok (.val _), s3) => (.error .unsupported, s3)
+           | (.ok (.call as ks), s3) =>
+             match prim.call s3 f as ks with
+             | (.ok v, s4) => (.ok v, s4)
+             | (.error e, s4) => (.error (.opFail pre.length .call e), s4)) := by
+  rw [c02_replay_reval F hwf prim _ o hrec target s]
+  congr 1
+  simp only [refEval_texpr, List.map_append, List.map_cons, List.map_nil, foldSteps_append]
+  cases h1 : foldSteps prim (fun s f => prim.revalFunc s target f)
+      (pre.map (refStep prim prim.revalFunc target)) 0 s target with
+  | mk x s1 =>
+    cases x with
+    | error e => rfl
+    | ok cur =>
+      have hm : meaning "__call__" = some .call := by decide
+      have hargless : arglessDunders.contains "__call__" = false := by decide
+      simp only [refStep, hargless, Bool.false_eq_true, if_false, foldSteps, List.length_map,
+        Nat.zero_add, hm, calleeOf, beq_self_eq_true, if_true]
+      cases h2 : prim.revalFunc s1 target cur with
+      | mk rf s2 =>
+        cases rf with
+        | error e => rfl
+        | ok f =>
+          simp only
+          cases h3 : refArg prim prim.revalFunc target (.cargs args kwargs) s2 with
+          | mk y s3 =>
+            cases y with
+            | error e => rfl
+            | ok av =>
+              cases av with
+              | val w => rfl
+              | call as ks =>
+                simp only [pyApply]
+                cases h4 : prim.call s3 f as ks with
+                | mk r s4 => cases r <;> rfl
 
 /-- **Checker theorem** — the form in which the property is also evaluated on
     the implementation's observation by the correspondence driver: the outcome
     and the target object afterwards, as an observer sees them (`view`: any
-    function of the state left and a value; the driver's is "the tree the value
-    denotes in the heap"). -/
+    function of the state left and a value; the driver's is "the object graph reachable
+    from the value, the target and the literal objects of the expression, addresses
+    renumbered in first-visit order").  The reference is the chain applied with the callee
+    of every call passed through `arg_val` first (`prim.revalFunc`; under `PlainCallee`
+    that is plain Python, `c02_replay`). -/
 theorem c02_model_checks {V S W : Type} [BEq W] [ReflBEq W] (view : View V S W) (F : Facts)
-    (hwf : WF F = true) (prim : Prim V S) (hcallee : PlainCallee prim) (e : E V) (o : C02.Obj V)
+    (hwf : WF F = true) (prim : Prim V S) (e : E V) (o : C02.Obj V)
     (hrec : record F prim.none e = some o) (target : V) (s : S)
-    (hsup : (refEval prim e target s).1 ≠ .error .unsupported) :
-    checkC02 view prim e target s (observeS F view target (tEval F prim o target s)) = true := by
-  rw [c02_replay F hwf prim hcallee e o hrec target s]
+    (hsup : ∀ re, (refEval prim prim.revalFunc e target s).1 = .error re → re.isUnsupported = false) :
+    checkC02 view prim prim.revalFunc e target s (observeS F view target (tEval F prim o target s)) = true := by
+  rw [c02_replay_reval F hwf prim e o hrec target s]
   unfold checkC02 observeS
-  generalize refEval prim e target s = rs at hsup ⊢
+  generalize refEval prim prim.revalFunc e target s = rs at hsup ⊢
   obtain ⟨r, s1⟩ := rs
   simp only [outS, BEq.rfl, Bool.and_true]
+  have hflag : (F.exc.mro "PathAccessError").contains "GlomError" = true := by
+    simp only [WF, Bool.and_eq_true] at hwf; exact hwf.2
+  have hflag' : "GlomError" ∈ F.exc.mro "PathAccessError" := by simpa using hflag
   cases r with
   | ok v => simp [viewRes, outOf, observe, checkObs]
   | error re =>
+    have hs := hsup re rfl
     cases re with
-    | unsupported => exact absurd rfl hsup
+    | unsupported => simp [RefErr.isUnsupported] at hs
     | raised x => simp [viewRes, outOf, errOf, observe, checkObs]
+    | callee ce =>
+      cases ce with
+      | unsupported => simp [RefErr.isUnsupported] at hs
+      | pae k x => simp [viewRes, outOf, errOf, observe, checkObs, hflag']
+      | raised x => simp [viewRes, outOf, errOf, observe, checkObs]
     | opFail k kind x =>
       obtain ⟨hdoc, hcall⟩ := kindsOk_of_wf hwf kind
-      have hflag : (F.exc.mro "PathAccessError").contains "GlomError" = true := by
-        simp only [WF, Bool.and_eq_true] at hwf; exact hwf.2
-      have hflag' : "GlomError" ∈ F.exc.mro "PathAccessError" := by simpa using hflag
       simp only [viewRes, outOf, errOf]
       split
       · rename_i hc
@@ -241,7 +406,9 @@ def toyPrim (reval : TV → TV → TV) : Prim TV (List Int) :=
     mkTuple := fun s _ => (.n 0, s)
     hashKey := fun s _ => (.ok (), s)
     mkDict := fun s _ => (.ok (.n 0), s)
-    revalFunc := fun s t f => (reval t f, s) }
+    mkSet := fun s _ _ => (.ok (.n 0), s)
+    rebuild := fun s _ _ _ => (.ok (.n 99), s)      -- `type(v)(items)`: another object
+    revalFunc := fun s t f => (.ok (reval t f), s) }
 
 /-- plain data: `arg_val` returns an evaluated callee as it is -/
 def plain : TV → TV → TV := fun _ v => v
@@ -262,11 +429,11 @@ theorem ex_record : record genFacts (toyPrim plain).none exE = some exO := by
     arglessDunders, allSome, flatOfCells, record]
 
 /-- applied directly to 7: `7 // 2 + -7 = -4` (the nested `-T` sees the target 7, not 3) -/
-theorem ex_ref : refEval (toyPrim plain) exE (.n 7) [] = (.ok (.n (-4)), []) := by
-  simp [exE, refEval_texpr, refStep, arglessDunders, meaning, meaningTable, foldSteps, pyApply,
+theorem ex_ref : refEval (toyPrim plain) plainRV exE (.n 7) [] = (.ok (.n (-4)), []) := by
+  simp [exE, refEval_texpr, refStep, calleeOf, plainRV, arglessDunders, meaning, meaningTable, foldSteps, pyApply,
     toyPrim, refArg]
 
-example : (refEval (toyPrim plain) exE (.n 7) []).1 ≠ .error .unsupported := by
+example : (refEval (toyPrim plain) plainRV exE (.n 7) []).1 ≠ .error .unsupported := by
   rw [ex_ref]; simp
 
 /-- hence, by `c02_replay`, so does the model on the recorded object -/
@@ -275,9 +442,9 @@ example : tEval genFacts (toyPrim plain) exO (.n 7) [] = (.ok (.n (-4)), []) := 
   rfl
 
 /-- a failing operation: `(T // 0)` is operation 0 raising ZeroDivisionError -/
-example : refEval (toyPrim plain) (.texpr [("__floordiv__", .lit (.n 0))]) (.n 7) []
+example : refEval (toyPrim plain) plainRV (.texpr [("__floordiv__", .lit (.n 0))]) (.n 7) []
     = (.error (.opFail 0 (.bin .floordiv) ⟨"ZeroDivisionError"⟩), []) := by
-  simp [refEval_texpr, refStep, arglessDunders, meaning, meaningTable, foldSteps, pyApply,
+  simp [refEval_texpr, refStep, calleeOf, plainRV, arglessDunders, meaning, meaningTable, foldSteps, pyApply,
     toyPrim, refArg]
 
 /-! #### a call that changes the target: `T.pop() + T[0]` on the stack `[10, 20, 30]` -/
@@ -309,6 +476,42 @@ def tEvalHoisted {V S} (F : Facts) (prim : Prim V S) (cells : List (String × C0
   | (.error e, s1) => (.error e, s1)
   | (.ok avs, s1) => applyAll F prim target (cells.map (·.1)) avs 0 s1 target
 
+/-! #### the same argument OBJECT used by two operations: `a = T[0]; T[0] + a + T.pop() + a` -/
+
+/-- the evaluation order of the seeded change C02-s10 — `_t_eval` keeps the value of a nested T
+    argument by the IDENTITY of the T object the first time it is evaluated: a step is
+    `(op char, which object its argument is, that object)` -/
+def applyMemo {V S} (F : Facts) (prim : Prim V S) (target : V) :
+    List (String × Nat × C02.Obj V) → List (Nat × AV V) → Nat → S → V → Except Err V × S
+  | (c, id, a) :: rest, memo, k, s, cur =>
+    match memo.find? (·.1 == id) with
+    | some (_, av) =>
+      match stepOp F prim target k c s cur (fun s' => (.ok av, s')) with
+      | (.ok v, s1) => applyMemo F prim target rest memo (k + 1) s1 v
+      | (.error e, s1) => (.error e, s1)
+    | none =>
+      match argVal F prim target a s with
+      | (.error e, s1) => (.error e, s1)
+      | (.ok av, s1) =>
+        match stepOp F prim target k c s1 cur (fun s' => (.ok av, s')) with
+        | (.ok v, s2) => applyMemo F prim target rest ((id, av) :: memo) (k + 1) s2 v
+        | (.error e, s2) => (.error e, s2)
+  | [], _, _, s, cur => (.ok cur, s)
+
+def memoA : C02.Obj TV := .tt (.root "T" :: flatOfCells [("[", .lit (.n 0))])
+def memoPop : C02.Obj TV := .tt (.root "T" :: flatOfCells [(".", .lit (.n 0)), ("(", .cargs [] [])])
+
+/-- `T[0] + a + T.pop() + a` with `a = T[0]` ONE object (number 1) -/
+def memoSteps : List (String × Nat × C02.Obj TV) :=
+  [("[", 0, .lit (.n 0)), ("+", 1, memoA), ("+", 2, memoPop), ("+", 1, memoA)]
+
+def memoE : E TV :=
+  .texpr [("__getitem__", .lit (.n 0)), ("__add__", .texpr [("__getitem__", .lit (.n 0))]),
+          ("__add__", .texpr [("__getattr__", .lit (.n 0)), ("__call__", .cargs [] [])]),
+          ("__add__", .texpr [("__getitem__", .lit (.n 0))])]
+
+def memoO : C02.Obj TV := .tt (.root "T" :: flatOfCells (memoSteps.map (fun st => (st.1, st.2.2))))
+
 /-! #### without `WF`: the tables of the tree before commit e2222c4 (no branch for `'#'`)
     make `_t_eval` skip the recorded floor division without any error -/
 
@@ -324,6 +527,37 @@ def condFacts : Facts :=
       match Kind.ofString en.2.1 with
       | .bin _ | .un _ => (en.1, en.2.1, [])
       | _ => en) }
+
+/-! #### the heap instance: which callees `arg_val` leaves alone -/
+
+/-- a heap with an instance of a list subclass (0), a stored `T['f']` object (1, 2) and a dict (3) -/
+def hs1 : HS :=
+  { heap := [.list "Column" [.int 1], .inst "TType" [("ops", .ref 2)],
+             .tuple "tuple" [.sent "T", .str "[", .str "f"],
+             .dict "dict" [(.str "f", .fn "ident"), (.str "g", .ref 1)]] }
+
+/-- the hypothesis of `c02_heap_callee_plain` holds for a function and for an instance of a
+    container subclass, and fails for a stored T object and for an exact dict -/
+example : isSpecLike hs1 (.fn "ident") = false ∧ isSpecLike hs1 (.ref 0) = false ∧
+    isSpecLike hs1 (.ref 1) = true ∧ isSpecLike hs1 (.ref 3) = true := by decide
+
+/-- `meaning d ≠ some .call` (hypothesis of `c02_args_from_root`) -/
+example : meaning "__add__" ≠ some .call := by decide
+
+/-! #### the type tests of `_ArgValuator.mode` as `isinstance` tests (the seeded change C02-s9):
+    the tables the extractor emits for `isinstance(spec, (list, dict))` / `isinstance(spec, (tuple,
+    set, frozenset))` -/
+
+def instFacts : Facts :=
+  { genFacts with argExact := [], argInst := rebuiltTypes }
+
+/-- `T[1](col)`: the identity function called with a literal `col` (the object `stack`) that is
+    an instance of a subclass of `list` -/
+def subE : E TV :=
+  .texpr [("__getitem__", .lit (.n 1)), ("__call__", .cargs [.sub "list" .stack []] [])]
+
+def subO : C02.Obj TV :=
+  .tt (.root "T" :: flatOfCells [("[", .lit (.n 1)), ("(", .cargs [.sub "list" .stack []] [])])
 
 /-! #### `T[1](T[2])` on a target whose items are `T` objects (`tobj`, also the identity
     function): a stored `T` object as argument, and as callee -/
@@ -363,8 +597,8 @@ theorem dbl_record (reval : TV → TV → TV) :
     arglessDunders, allSome, flatOfCells, record]
 
 theorem dbl_ref (reval : TV → TV → TV) :
-    refEval (toyPrim reval) dblE (.n 7) [] = (.ok .tobj, []) := by
-  simp [dblE, refEval_texpr, refStep, arglessDunders, meaning, meaningTable, foldSteps, pyApply,
+    refEval (toyPrim reval) plainRV dblE (.n 7) [] = (.ok .tobj, []) := by
+  simp [dblE, refEval_texpr, refStep, calleeOf, plainRV, arglessDunders, meaning, meaningTable, foldSteps, pyApply,
     toyPrim, refArg, refVals, refValRun, refVal1, seqRun]
 
 end Glom.C02.Examples
@@ -380,21 +614,48 @@ open Glom Glom.C02 Glom.C02.Examples
     `glom({'l': [10, 20, 30]}, T['l'].pop() + T['l'][-1]) == 50`. -/
 theorem c02_hoisted_args_counterexample :
     record genFacts (toyPrim plain).none popE = some popO ∧
-    refEval (toyPrim plain) popE .stack [10, 20, 30] = (.ok (.n 50), [10, 20]) ∧
+    refEval (toyPrim plain) plainRV popE .stack [10, 20, 30] = (.ok (.n 50), [10, 20]) ∧
     tEval genFacts (toyPrim plain) popO .stack [10, 20, 30] = (.ok (.n 50), [10, 20]) ∧
     tEvalHoisted genFacts (toyPrim plain) popCells .stack [10, 20, 30]
       = (.ok (.n 60), [10, 20]) := by
   have hrec : record genFacts (toyPrim plain).none popE = some popO := by
     simp [popE, popO, popCells, toyPrim, record_texpr, recStep, charOf, genFacts,
       Generated.tRecorded, arglessDunders, allSome, flatOfCells, record]
-  have href : refEval (toyPrim plain) popE .stack [10, 20, 30] = (.ok (.n 50), [10, 20]) := by
-    simp [popE, refEval_texpr, refStep, arglessDunders, meaning, meaningTable, foldSteps, pyApply,
+  have href : refEval (toyPrim plain) plainRV popE .stack [10, 20, 30] = (.ok (.n 50), [10, 20]) := by
+    simp [popE, refEval_texpr, refStep, calleeOf, plainRV, arglessDunders, meaning, meaningTable, foldSteps, pyApply,
       toyPrim, refArg, refVals, seqRun]
   refine ⟨hrec, href, ?_, ?_⟩
   · rw [c02_replay genFacts c02_facts_wf (toyPrim plain) plain_ok popE popO hrec, href]
     rfl
   · simp only [tEvalHoisted, popCells, List.map, seqRun, argVal_tt_T]
     simp [argVal_lit, argVal_cargs, seqRun, stepsEval, valsOf, applyAll, stepOp, Generated.tArgValExempt,
+      applyBranch, dispatchOf, genFacts, Generated.tDispatch, Kind.ofString, kindNames, guarded,
+      guardE, toyPrim, plain]
+
+/-- **An argument object used twice is evaluated twice.**  `a = T[0]; T[0] + a + T.pop() + a` on
+    the stack `[10, 20, 30]` (`stack[0]` is the last element now): the chain applied directly
+    gives 30 + 30 + 30 + 20 = 110 — the second use of `a` reads the stack after the pop —, and so
+    does the model of `_t_eval`, which runs `arg_val` on the argument slot of EVERY step.  Keeping
+    the value of the argument object from its first evaluation (the seeded change C02-s10,
+    `applyMemo`) gives 120.  Real glom: `a = T['l'][-1]`;
+    `glom({'l': [10, 20, 30]}, T['l'][-1] + a + T['l'].pop() + a) == 110`. -/
+theorem c02_arg_memo_counterexample :
+    record genFacts (toyPrim plain).none memoE = some memoO ∧
+    refEval (toyPrim plain) plainRV memoE .stack [10, 20, 30] = (.ok (.n 110), [10, 20]) ∧
+    tEval genFacts (toyPrim plain) memoO .stack [10, 20, 30] = (.ok (.n 110), [10, 20]) ∧
+    applyMemo genFacts (toyPrim plain) .stack memoSteps [] 0 [10, 20, 30] .stack
+      = (.ok (.n 120), [10, 20]) := by
+  have hrec : record genFacts (toyPrim plain).none memoE = some memoO := by
+    simp [memoE, memoO, memoSteps, memoA, memoPop, toyPrim, record_texpr, recStep, charOf, genFacts,
+      Generated.tRecorded, arglessDunders, allSome, flatOfCells, record]
+  have href : refEval (toyPrim plain) plainRV memoE .stack [10, 20, 30] = (.ok (.n 110), [10, 20]) := by
+    simp [memoE, refEval_texpr, refStep, calleeOf, plainRV, arglessDunders, meaning, meaningTable,
+      foldSteps, pyApply, toyPrim, refArg, refVals, seqRun]
+  refine ⟨hrec, href, ?_, ?_⟩
+  · rw [c02_replay genFacts c02_facts_wf (toyPrim plain) plain_ok memoE memoO hrec, href]
+    rfl
+  · simp only [memoSteps, memoA, memoPop, applyMemo, List.find?, argVal_tt_T]
+    simp [argVal_lit, argVal_cargs, seqRun, stepsEval, valsOf, stepOp, Generated.tArgValExempt,
       applyBranch, dispatchOf, genFacts, Generated.tDispatch, Kind.ofString, kindNames, guarded,
       guardE, toyPrim, plain]
 
@@ -407,7 +668,7 @@ theorem c02_wf_counterexample :
       = some (.tt [.root "T", .opc "#", .lit (.n 2)]) ∧
     tEval droppedFacts (toyPrim plain) (.tt [.root "T", .opc "#", .lit (.n 2)]) (.n 7) []
       = (.ok (.n 7), []) ∧
-    refEval (toyPrim plain) (.texpr [("__floordiv__", .lit (.n 2))]) (.n 7) []
+    refEval (toyPrim plain) plainRV (.texpr [("__floordiv__", .lit (.n 2))]) (.n 7) []
       = (.ok (.n 3), []) := by
   refine ⟨by decide, ?_, ?_, ?_⟩
   · simp [toyPrim, record_texpr, recStep, charOf, droppedFacts, genFacts, Generated.tRecorded,
@@ -417,7 +678,7 @@ theorem c02_wf_counterexample :
     rw [h]
     simp [tEval, argVal_tt_T, stepsEval, argVal_lit, stepOp, Generated.tArgValExempt, applyBranch, dispatchOf,
       droppedFacts, genFacts, Generated.tDispatch]
-  · simp [refEval_texpr, refStep, arglessDunders, meaning, meaningTable, foldSteps, pyApply,
+  · simp [refEval_texpr, refStep, calleeOf, plainRV, arglessDunders, meaning, meaningTable, foldSteps, pyApply,
       toyPrim, refArg]
 
 /-- **Every failing arithmetic step is a PathAccessError — unconditionally.**  The facts
@@ -444,9 +705,9 @@ theorem c02_conditional_handler_counterexample :
       = some (.tt [.root "T", .opc "#", .lit (.n 0)]) := by
     simp [toyPrim, record_texpr, recStep, charOf, genFacts, Generated.tRecorded, arglessDunders,
       allSome, flatOfCells, record]
-  have href : refEval (toyPrim plain) (.texpr [("__floordiv__", .lit (.n 0))]) (.n 7) []
+  have href : refEval (toyPrim plain) plainRV (.texpr [("__floordiv__", .lit (.n 0))]) (.n 7) []
       = (.error (.opFail 0 (.bin .floordiv) ⟨"ZeroDivisionError"⟩), []) := by
-    simp [refEval_texpr, refStep, arglessDunders, meaning, meaningTable, foldSteps, pyApply,
+    simp [refEval_texpr, refStep, calleeOf, plainRV, arglessDunders, meaning, meaningTable, foldSteps, pyApply,
       toyPrim, refArg]
   have herr := (c02_error_classes genFacts c02_facts_wf 0 (.bin .floordiv) ⟨"ZeroDivisionError"⟩).1
     (by decide)
@@ -465,7 +726,7 @@ theorem c02_conditional_handler_counterexample :
     `glom({'f': ident, 'a': T['b'], 'b': 5}, T['f'](T['a']))` is the object `T['b']`. -/
 theorem c02_args_evaluated_once :
     record genFacts (toyPrim plain).none dblE = some dblO ∧
-    refEval (toyPrim plain) dblE (.n 7) [] = (.ok .tobj, []) ∧
+    refEval (toyPrim plain) plainRV dblE (.n 7) [] = (.ok .tobj, []) ∧
     tEval genFacts (toyPrim plain) dblO (.n 7) [] = (.ok .tobj, []) := by
   refine ⟨dbl_record plain, dbl_ref plain, ?_⟩
   rw [c02_replay genFacts c02_facts_wf (toyPrim plain) plain_ok dblE dblO (dbl_record plain),
@@ -491,13 +752,54 @@ theorem c02_second_pass_counterexample :
     far as callees are concerned; recorded in the harness' ASSUMPTIONS.) -/
 theorem c02_callee_eval_counterexample :
     record genFacts (toyPrim leaky).none dblE = some dblO ∧
-    refEval (toyPrim leaky) dblE (.n 7) [] = (.ok .tobj, []) ∧
-    tEval genFacts (toyPrim leaky) dblO (.n 7) [] = (.error (.raised ⟨"TypeError"⟩), []) := by
-  refine ⟨dbl_record leaky, dbl_ref leaky, ?_⟩
+    refEval (toyPrim leaky) plainRV dblE (.n 7) [] = (.ok .tobj, []) ∧
+    tEval genFacts (toyPrim leaky) dblO (.n 7) [] = (.error (.raised ⟨"TypeError"⟩), []) ∧
+    -- what `c02_replay_reval` says instead: the callee is evaluated first (to the target 7)
+    outS genFacts (refEval (toyPrim leaky) (toyPrim leaky).revalFunc dblE (.n 7) [])
+      = (.error (.raised ⟨"TypeError"⟩), []) := by
+  refine ⟨dbl_record leaky, dbl_ref leaky, ?_, ?_⟩
+  rotate_left
+  · rw [← c02_replay_reval genFacts c02_facts_wf (toyPrim leaky) dblE dblO (dbl_record leaky)]
+    simp only [dblO]
+    simp [tEval, argVal_tt_T, stepsEval, argVal_lit, argVal_cargs, valsOf, valOfRun, valOfRes, asVal,
+      seqRun, stepOp, Generated.tArgValExempt, applyBranch, dispatchOf, genFacts, Generated.tDispatch,
+      Kind.ofString, kindNames, guarded, guardE, toyPrim, leaky, caughtBy]
   simp only [dblO]
   simp [tEval, argVal_tt_T, stepsEval, argVal_lit, argVal_cargs, valsOf, valOfRun, valOfRes, asVal,
     seqRun, stepOp, Generated.tArgValExempt, applyBranch, dispatchOf, genFacts, Generated.tDispatch,
     Kind.ofString, kindNames, guarded, guardE, toyPrim, leaky, caughtBy]
+
+/-- **A literal container-subclass instance is passed by reference — because the type tests of
+    `_ArgValuator.mode` are exact.**  `T[1](col)` where `col` is an instance of a subclass of
+    `list` and `target[1]` the identity function: the chain applied directly returns `col`
+    itself, and so does the model of `_t_eval` on the tables of /repo.  With the tables of a
+    tree whose tests are `isinstance` tests (`instFacts`, the seeded change C02-s9) `WF` fails
+    and the model rebuilds the argument with `type(col)(…)`: the callee receives ANOTHER object
+    (real glom with that change: `glom({'f': ident}, T['f'](col)) is not col`, a namedtuple
+    argument raises TypeError out of glom, a defaultdict loses its `default_factory`). -/
+theorem c02_isinstance_counterexample :
+    WF instFacts = false ∧
+    record genFacts (toyPrim plain).none subE = some subO ∧
+    record instFacts (toyPrim plain).none subE = some subO ∧
+    refEval (toyPrim plain) plainRV subE (.n 7) [] = (.ok .stack, []) ∧
+    tEval genFacts (toyPrim plain) subO (.n 7) [] = (.ok .stack, []) ∧
+    tEval instFacts (toyPrim plain) subO (.n 7) [] = (.ok (.n 99), []) := by
+  have hrec : record genFacts (toyPrim plain).none subE = some subO := by
+    simp [subE, subO, toyPrim, record_texpr, recStep, charOf, genFacts, Generated.tRecorded,
+      arglessDunders, allSome, flatOfCells, record]
+  have href : refEval (toyPrim plain) plainRV subE (.n 7) [] = (.ok .stack, []) := by
+    simp [subE, refEval_texpr, refStep, calleeOf, plainRV, arglessDunders, meaning, meaningTable,
+      foldSteps, pyApply, toyPrim, refArg, refVals, refValRun, refVal1, seqRun]
+  refine ⟨by decide, hrec, ?_, href, ?_, ?_⟩
+  · simp [subE, subO, toyPrim, record_texpr, recStep, charOf, instFacts, genFacts, Generated.tRecorded,
+      arglessDunders, allSome, flatOfCells, record]
+  · rw [c02_replay genFacts c02_facts_wf (toyPrim plain) plain_ok subE subO hrec, href]
+    rfl
+  · simp only [subO]
+    simp [tEval, argVal_tt_T, stepsEval, argVal_lit, argVal_cargs, argVal, valsOf, valOfRun, valOfRes,
+      asVal, seqRun, stepOp, Generated.tArgValExempt, applyBranch, dispatchOf, instFacts, genFacts,
+      Generated.tDispatch, rebuiltTypes, Kind.ofString, kindNames, guarded, guardE, toyPrim,
+      plain, liftExc]
 
 /-- **Call arguments are passed by reference.**  The identity function called with
     the target returns the target object itself — in the model of `_t_eval` as in
@@ -506,13 +808,13 @@ theorem c02_callee_eval_counterexample :
     `glom(t, T['f'](T['l']).append(2))` makes `t['l'] == [1, 2]`. -/
 theorem c02_call_by_reference :
     record genFacts (toyPrim plain).none idE = some idO ∧
-    refEval (toyPrim plain) idE .stack [1] = (.ok .stack, [1]) ∧
+    refEval (toyPrim plain) plainRV idE .stack [1] = (.ok .stack, [1]) ∧
     tEval genFacts (toyPrim plain) idO .stack [1] = (.ok .stack, [1]) := by
   have hrec : record genFacts (toyPrim plain).none idE = some idO := by
     simp [idE, idO, toyPrim, record_texpr, recStep, charOf, genFacts, Generated.tRecorded,
       arglessDunders, allSome, flatOfCells, record]
-  have href : refEval (toyPrim plain) idE .stack [1] = (.ok .stack, [1]) := by
-    simp [idE, refEval_texpr, refStep, arglessDunders, meaning, meaningTable, foldSteps, pyApply,
+  have href : refEval (toyPrim plain) plainRV idE .stack [1] = (.ok .stack, [1]) := by
+    simp [idE, refEval_texpr, refStep, calleeOf, plainRV, arglessDunders, meaning, meaningTable, foldSteps, pyApply,
       toyPrim, refArg, refVals, refValRun, refVal1, seqRun]
   refine ⟨hrec, href, ?_⟩
   rw [c02_replay genFacts c02_facts_wf (toyPrim plain) plain_ok idE idO hrec, href]
